@@ -44,7 +44,7 @@ def both_zeros(line):
 
 class C13(Property):
     id = "C13"
-    lean_module = "RosuModel.Props.C13Full"   # imports Props/C13.lean; namespace Rosu.C13
+    lean_module = "RosuModel.Props.C13Full"   # imports Props/C13Exact.lean (→ Props/C13.lean) and Props/C13Ieee.lean; namespace Rosu.C13
     theorem_modules = ['RosuModel.Props.C13Exact', 'RosuModel.Props.C13Ieee']   # files whose top-level theorems are all audited
     namespace = "Rosu.C13"
     design_ref = "5.13"
@@ -61,8 +61,13 @@ class C13(Property):
         "one_point_per_time (no two stored points with == times), lookup_time_spec / before_first_time (a lookup returns the latest point with time <= probe, "
         "else first point / nothing), add_difficulty_time / add_effect_time / add_sample_time / add_redundant_noop (an add repeating the point active at its TIME, "
         "or the default, is a no-op), replace_at_equal_time_T, all together worded_property. For IEEE f64, TimeKeyOn S holds exactly for the S with no NaN and not both "
-        "+0.0 and -0.0 (fact about total_cmp, not kernel-checkable; exhibited in the kernel on a toy scalar with two zeros: timeKeyOn_zz_no_negzero, "
-        "timeKeyOn_zz_both_zeros_false) - so on NaN-free histories F8 is the ONLY way the worded property fails. timeKeyOn_of_exact derives it from ExactScalar "
+        "+0.0 and -0.0. This is now a kernel-checked theorem about the driver's Float (Props/C13Ieee.lean; in Lean 4.33 Float is a structure over the logical model Float.Model, so `<`, `<=`, `==`, isNaN, toBits "
+        "reduce; Lemmas/FloatModelOrder.lean shows the model's comparison is the comparison of signed magnitudes of the bit patterns): float_key_lt_iff / float_key_eq_iff / float_key_le_iff, "
+        "timeKeyOn_float_iff (TimeKeyOn S iff S contains no NaN and not both zeros), timeKeyOn_float (non-NaN, not -0.0), timeKeyOn_float_no_poszero, timeKeyOn_float_both_zeros_false; the headline theorems "
+        "restated at Float with no hypothesis about the arithmetic (times_strictly_sorted_float, one_point_per_time_float, lookup_time_spec_float, before_first_time_float, add_redundant_noop_float, "
+        "replace_at_equal_time_T_float, worded_property_float, worded_property_float_no_poszero, worded_property_float_of, lists_strictly_sorted_time_float for decoded [TimingPoints] lines); and finding F8 "
+        "replayed on Float in the kernel (f8_float: add(+0.0); add(-0.0) stores two timing points with == times; f8_float_one_zero: with one zero the second replaces the first) - so on NaN-free histories "
+        "F8 is the ONLY way the worded property fails. (Also on a toy scalar with two zeros: timeKeyOn_zz_no_negzero, timeKeyOn_zz_both_zeros_false.) Not proved: TimeKeyOn for Float32. timeKeyOn_of_exact derives it from ExactScalar "
         "(Lemmas/ExactArith.lean) + 'the key is strictly monotone on S' (instances: the integers inside Rat, all of the toy Z); no_global_time_key proves that "
         "ExactScalar excludes a key monotone on ALL values (Q does not embed in Z), which is why the hypothesis is relative to S. The global reading 'no stored point repeats its predecessor' is proved false for "
         "out-of-order histories and for repeated times, and true for strictly increasing histories. The theorems speak of keys; the "
@@ -87,13 +92,22 @@ class C13(Property):
         "add_difficulty_time", "add_effect_time", "add_sample_time", "add_redundant_noop", "replace_at_equal_time_T", "worded_property",
         "timeKeyOn_of_exact", "no_global_time_key", "timeKeyOn_z", "timeKeyOn_zz_no_negzero", "timeKeyOn_zz_both_zeros_false",
         "timeKeyOn_rat_integers",
+        # Props/C13Ieee.lean: TimeKeyOn characterised for the driver's Float; the worded property and F8 at Float
+        "float_key_lt_iff", "float_key_eq_iff", "float_key_le_iff", "timeKeyOn_float_of", "timeKeyOn_float_both_zeros_false",
+        "timeKeyOn_float_nan_false", "timeKeyOn_float_iff", "timeKeyOn_float", "timeKeyOn_float_no_poszero",
+        "times_strictly_sorted_float", "adds_time_sorted_float", "one_point_per_time_float", "lookup_time_spec_float", "before_first_time_float",
+        "add_redundant_noop_float", "replace_at_equal_time_T_float", "worded_property_float", "worded_property_float_no_poszero",
+        "worded_property_float_of", "lists_strictly_sorted_time_float", "f8_float", "f8_float_one_zero",
     ]
     partial_theorems = {
         "adds_sorted / times_strictly_sorted / worded_property":
             "adds_sorted is by the total_cmp key and holds for IEEE. The property as worded (time order, one point per time, lookups and redundancy by time) is "
             "proved under TimeKeyOn S (key order = time order on the times that occur); IEEE f64 violates that hypothesis exactly when S contains a NaN or both "
-            "+0.0 and -0.0 (not kernel-checked for Float; shown on a toy scalar with two zeros), so 'at most one point per time' fails on histories containing both "
-            "zeros (finding F8, reported by the implementation-level oracle) and nowhere else among NaN-free histories",
+            "+0.0 and -0.0 — now a kernel-checked theorem about the driver's Float: timeKeyOn_float_iff (Props/C13Ieee.lean, from Lemmas/FloatModelOrder.lean) — so 'at most one point per time' fails on "
+            "histories containing both zeros (finding F8, reported by the implementation-level oracle and replayed in the kernel on Float: f8_float) and nowhere else among NaN-free histories: "
+            "worded_property_float (times not NaN and not -0.0), worded_property_float_no_poszero, worded_property_float_of (any NaN-free set without both zeros) hold with no hypothesis about the arithmetic. "
+            "These are theorems about Lean's logical float model Float.Model with the key f64TotalKey of Model/FloatInst.lean; that this key is the order of Rust's f64::total_cmp stays in the trusted base "
+            "(compared on every `cpops` request). TimeKeyOn for Float32 is not proved",
     }
     trusted_base = [
         "Lean 4.33.0 kernel",
@@ -102,7 +116,9 @@ class C13(Property):
         "std: slice::binary_search_by returns the unique hit / the insertion point on a slice strictly sorted w.r.t. the comparator "
         "(documented contract; modelled by the linear scan `searchKey`; adds_sorted shows the precondition holds on every reachable collection)",
         "std: f64::total_cmp is the order of the integer key `totalKey` (sign-magnitude bits); Vec::insert / index assignment",
-        "Lean's Float for the driver instance (C double operations); NaN sign/payload are not observable through Float.toBits",
+        "the *_float theorems are about Lean 4.33's logical float model Float.Model (Float is a structure over it, not opaque; comparisons, isNaN, toBits reduce in the kernel); that the compiled @[extern] C double "
+        "operations the driver runs agree with that model is part of Lean's own trusted code base and is compared with Rust bit for bit (codec requests fop64 / fop32 cmp etc., and every `cpops` request of this run); "
+        "a model value only ever holds the canonical NaN, so NaN sign/payload are not observable through Float.toBits",
     ]
     assumptions = [
         "theorems are about the Lean model; the model is compared with the implementation only on the generated histories of this run",
